@@ -6,6 +6,7 @@ compared with the model in Coq (Charging/CorrChf.v) and the property monitors ar
 evaluated on the implementation's own trace (here)."""
 import json
 import os
+import sys
 import random
 import subprocess
 from common import *
@@ -78,6 +79,8 @@ def json_body(supi_s, req):
         muu.append(u)
     b = {"subscriberIdentifier": supi_s, "invocationSequenceNumber": req["seq"], "notifyUri": "$NOTIFY/cb%d" % req["notify"],
          "chargingId": req["cid"], "multipleUnitUsage": muu}
+    if req["notify"] < 0:
+        del b["notifyUri"]          # the optional member is absent: the consumer registers no notification URI
     if req["consumer"] is not None:
         b["nfConsumerIdentification"] = {"nFName": req["consumer"], "nodeFunctionality": "SMF"}
     if req["triggers"]:
@@ -93,7 +96,7 @@ def coq_req(req):
         cs = cl("mkCont %d %d %d %d %d %d" % (k["qmi"], k["total"], k["ul"], k["dl"], k["ssu"], k["lsn"]) for k in g["conts"])
         us.append("mkUsage %d %s %s" % (g["rg"], optz(g["req"]), cs))
     cons = "None" if req["consumer"] is None else "(Some %s)" % zl(req["consumer"])
-    return "(mkReq %d %s %s %s %s %d %d %d)" % (req["supi"], "true" if req["supi_ok"] else "false", cons, cl(us),
+    return "(mkReq %d %s %s %s %s %d (%d) %d)" % (req["supi"], "true" if req["supi_ok"] else "false", cons, cl(us),
                                                cl(str(t) for t in req["triggers"]), req["seq"], req["notify"], req["cid"])
 
 
@@ -105,6 +108,8 @@ def coq_op(op):
         return "%s %s %s" % (k.capitalize(), zl(op["ref"]), coq_req(op["req"]))
     if k == "recharge":
         return "Recharge %d %d" % (op["supi"], op["rg"])
+    if k == "elapse":
+        return "Elapse %d" % op["n"]
     return "Credit %d %d %d" % (op["supi"], op["rg"], op["amount"])
 
 
@@ -134,7 +139,7 @@ def coq_obs(o, accounts, notes_cum, supis):
             fui = (m.get("finalUnitIndication") or {}).get("finalUnitAction", "") == "TERMINATE"
             muis.append("(%d, (%d), %s)" % (m.get("ratingGroup", 0), granted, "true" if fui else "false"))
     quotas = [int(o["db"]["%s|%d" % (supi_s[a[0]], a[1])]["quota"]) for a in accounts]
-    ues = []
+    ues = {}
     for n in supis:
         st = (o.get("ues") or {}).get(supi_s[n])
         if st is None:
@@ -149,10 +154,24 @@ def coq_obs(o, accounts, notes_cum, supis):
         for k, i in sorted(st["cdrIndex"].items()):
             kk = k[len(supi_s[n]):] if k.startswith(supi_s[n]) else "?" + k
             cdr.append("(%s, (%d))" % (zl(kk), i))
-        ues.append("mkUobs %d %s %s %s %s %s %s" % (n, amap(st["reserved"]), amap(st["ratingType"]), amap(st["unitCost"]),
-                                                   amap(st["acctReqNum"]), cl(cdr), cl(recs)))
+        ues[n] = "mkUobs %d %s %s %s %s %s %s" % (n, amap(st["reserved"]), amap(st["ratingType"]), amap(st["unitCost"]),
+                                                 amap(st["acctReqNum"]), cl(cdr), cl(recs))
     notes = cl("((%d), %d, (%d))" % t for t in notes_cum)
-    return "(mkObs %d %s (%d) %s %s %s %d %s)" % (status, zl(ref), seq, cl(muis), cl("(%d)" % q for q in quotas), cl(ues), o.get("lrsn", 0), notes)
+    head = "(mkObs %d %s (%d) %s %s " % (status, zl(ref), seq, cl(muis), cl("(%d)" % q for q in quotas))
+    tail = " %d (%d) %s)" % (len(ues), -1 if o.get("burst_sub") else o.get("lrsn", 0), notes)
+    return (head, ues, tail)
+
+
+def obs_strings(obs):
+    """the subscriber contexts are listed in an observation when they differ from the previous observation of the
+    history (the model is compared on the contexts the request changed), and all of them at the last step"""
+    out, last = [], {}
+    for i, (head, ues, tail) in enumerate(obs):
+        final = i == len(obs) - 1
+        pick = [u for n, u in ues.items() if final or last.get(n) != u]
+        last = dict(ues)
+        out.append(head + cl(pick) + tail)
+    return out
 
 
 # ---------------------------------------------------------------- histories
@@ -169,8 +188,8 @@ class History:
 def gen_history(rng, sim, hid, kind, nops):
     h = History(hid, kind)
     base = IMSI0 + hid * 10
-    nsub = 1 if kind in ("single", "split", "huge") else 2
-    rgs = [1] if kind in ("single", "split", "huge") else rng.choice([[1], [1, 2]])
+    nsub = 1 if kind in ("single", "split", "huge", "burst") else 8 if kind == "lenwalk" else 2
+    rgs = [1] if kind in ("single", "split", "huge", "burst", "lenwalk") else rng.choice([[1], [1, 2]])
     for s in range(nsub):
         supi = base + s
         h.supis.append(supi)
@@ -194,7 +213,7 @@ def gen_history(rng, sim, hid, kind, nops):
                 "seq": seqno[0], "notify": notify, "cid": cid}
 
     def send(op):
-        supi_s = "imsi-%d" % (op["req"]["supi"] if "req" in op else op["supi"])
+        supi_s = "imsi-%d" % (op["req"]["supi"] if "req" in op else op.get("supi", 0))
         if op["kind"] == "create":
             o = sim.do({"op": "create", "body": json_body(supi_s, op["req"])})
         elif op["kind"] in ("update", "release"):
@@ -206,6 +225,9 @@ def gen_history(rng, sim, hid, kind, nops):
                 k = int(path[3:]) if path.startswith("/cb") and path[3:].isdigit() else -1
                 for d in (nt.get("body") or {}).get("reauthorizationDetails") or []:
                     h.notes.append((k, op["supi"], d.get("ratingGroup", -1)))
+        elif op["kind"] == "elapse":
+            o = sim.do({"op": "elapse", "n": str(op["n"])})
+            o["status"] = 0
         else:   # credit: the operator rewrites the stored balance
             cur = None
             for (s, rg, q, c) in h.accounts:
@@ -246,6 +268,7 @@ def gen_history(rng, sim, hid, kind, nops):
         cidc[0] += 1
         notec[0] += 1
         consumer = consumer if consumer is not None else rng.choice(["smf1", "smfA", "a1", "a", "x-1", ""])
+        notify_k = -1 if (kind in ("multi", "single") and rng.random() < 0.12) else notec[0]
         us = []
         if rng.random() < 0.7 or kind == "createusage":
             # usage reported at creation: offline or zero online volume (create performs no credit control)
@@ -257,14 +280,111 @@ def gen_history(rng, sim, hid, kind, nops):
                 elif k["qmi"] != 0:
                     k["total"], k["ul"], k["dl"] = 0, 0, 0
             us = [g]
-        req = new_req(supi, us, consumer=consumer, cid=cidc[0], notify=notec[0])
+        req = new_req(supi, us, consumer=consumer, cid=cidc[0], notify=notify_k)
         o = send({"kind": "create", "req": req})
         if o["status"] == 201:
             loc = o["location"].rsplit("/", 1)[-1]
             ref = loc[len("imsi-%d" % supi):]
-            sessions.append({"supi": supi, "ref": ref, "grants": {}, "lsn": 10, "live": True, "cid": cidc[0], "notify": notec[0], "consumer": consumer})
+            sessions.append({"supi": supi, "ref": ref, "grants": {}, "lsn": 10, "live": True, "cid": cidc[0], "notify": notify_k, "consumer": consumer})
 
-    do_create(h.supis[0])
+    def do_burst(s, ncreates, ncont):
+        """one heavy update on session s is started, and while it holds the subscriber's lock ncreates creates
+        for the same subscriber arrive together.  The burst is recorded in the order given by the counters in the
+        returned references (the linearisation the answers themselves claim); the state is observed after it."""
+        g = usage_for(s, rgs[0], True, rng, big=ncont)
+        ureq = new_req(s["supi"], [g], cid=s["cid"], notify=s["notify"])
+        supi_s = "imsi-%d" % s["supi"]
+        burst = [{"op": "update", "ref": supi_s + s["ref"], "body": json_body(supi_s, ureq)}]
+        creqs = []
+        for _ in range(ncreates):
+            cidc[0] += 1
+            creq = new_req(s["supi"], [], consumer=s["consumer"], cid=cidc[0], notify=s["notify"])
+            creqs.append(creq)
+            burst.append({"op": "create", "body": json_body(supi_s, creq)})
+        o = sim.do({"op": "burst", "ms": 2, "burst": burst})
+        subs = o.pop("sub")
+        def counter(sub):
+            t = (sub.get("location") or "").rsplit("-", 1)
+            return int(t[1]) if len(t) == 2 and t[1].isdigit() else 1 << 70
+        order = sorted(range(1, len(subs)), key=lambda i: (counter(subs[i]), i))
+        steps = [({"kind": "update", "ref": s["ref"], "req": ureq}, subs[0])] + \
+                [({"kind": "create", "req": creqs[i - 1]}, subs[i]) for i in order]
+        refs = []
+        for n, (op, sub) in enumerate(steps):
+            last = n == len(steps) - 1
+            oo = dict(o)
+            oo.update({"status": sub["status"], "location": sub.get("location"), "body": sub.get("body"), "hung": sub.get("hung"),
+                       "burst_sub": not last, "in_burst": True, "elapsed_us": sub.get("elapsed_us")})
+            if op["kind"] == "create" and sub["status"] == 201:
+                tail = sub["location"].rsplit("/", 1)[-1]
+                refs.append(tail)
+                sessions.append({"supi": s["supi"], "ref": tail[len(supi_s):], "grants": {}, "lsn": 10, "live": True,
+                                 "cid": op["req"]["cid"], "notify": s["notify"], "consumer": s["consumer"]})
+            if last:
+                oo["burst_refs"] = refs
+            h.ops.append(op)
+            h.raw.append(oo)
+            h.obs.append(coq_obs(oo, [(a[0], a[1]) for a in h.accounts], list(h.notes), h.supis))
+        record_grants(s, subs[0])
+
+    if kind in ("wrap32", "wrap63"):
+        # the record counter crosses 2^32 (the ASN.1 range of the record's sequence number) or 2^63 (the sign
+        # bit of int(counter)) while sessions opened before are still live
+        edge = (1 << 32) if kind == "wrap32" else (1 << 63)
+        for _ in range(3):
+            do_create(h.supis[0], consumer="smf1")
+        cur = h.raw[-1]["lrsn"]
+        if cur < edge - 3:
+            send({"kind": "elapse", "n": edge - rng.choice([1, 2, 3]) - cur})
+        for step in range(nops):
+            live = [s for s in sessions if s["live"]]
+            r = rng.random()
+            if r < 0.6 or not live:
+                do_create(rng.choice(h.supis), consumer=rng.choice(["smf1", "smf1", "smf1-", "a"]))
+            else:
+                s = rng.choice(live)
+                g = usage_for(s, rgs[0], True, rng)
+                req = new_req(s["supi"], [g], cid=s["cid"], notify=s["notify"], triggers=rng.choice([[], [1]]))
+                knd = rng.choice(["update", "update", "release"])
+                o = send({"kind": knd, "ref": s["ref"], "req": req})
+                record_grants(s, o)
+                if knd == "release" and o["status"] == 204:
+                    s["live"] = False
+        return h
+
+    if kind == "lenwalk":
+        # consumer names of every length in chosen windows: each enclosing TLV of the record grows by one byte per
+        # step, so every nesting level walks through the BER length-form boundaries (127/128, 255/256) on some step
+        do_create(h.supis[0], consumer="c")
+        b1 = max(r["berLen"] for r in h.raw[-1]["ues"]["imsi-%d" % h.supis[0]]["records"])   # record size with a 1-byte name
+        lens = set(range(118, 130)) | set(range(226, 259))
+        for edge in (128, 256):
+            lens |= {L for L in range(edge - b1 - 8, edge - b1 + 12) if L > 0}
+        for n, L in enumerate(sorted(lens)):
+            supi = h.supis[(n // 10) % len(h.supis)]          # a few records per subscriber keep the files small
+            do_create(supi, consumer="c" * L)
+            s = sessions[-1]
+            g = usage_for(s, rgs[0], True, rng)
+            o = send({"kind": "release", "ref": s["ref"], "req": new_req(s["supi"], [g], cid=s["cid"], notify=s["notify"], triggers=[1])})
+            s["live"] = False
+        return h
+    do_create(h.supis[0], consumer=("smf1" if kind == "burst" else None))
+    if kind == "burst":
+        for step in range(nops):
+            live = [s for s in sessions if s["live"]]
+            if step % 2 == 0:
+                do_burst(live[0], rng.choice([3, 4, 6]), rng.choice([150, 300, 600]))
+            else:
+                # every reference handed out in the burst still designates its own record
+                for s in live[1:]:
+                    g = usage_for(s, rgs[0], True, rng)
+                    for k in g["conts"]:
+                        k["qmi"] = 0
+                    knd = "release" if rng.random() < 0.4 else "update"
+                    o = send({"kind": knd, "ref": s["ref"], "req": new_req(s["supi"], [g], cid=s["cid"], notify=s["notify"])})
+                    if knd == "release" and o["status"] == 204:
+                        s["live"] = False
+        return h
     for step in range(nops):
         live = [s for s in sessions if s["live"]]
         r = rng.random()
@@ -275,7 +395,8 @@ def gen_history(rng, sim, hid, kind, nops):
                 continue
             big = 4500 if kind == "huge" else rng.choice([300, 500, 700, 1200])
             g = usage_for(s, 1, True, rng, big=big)
-            req = new_req(s["supi"], [g], cid=s["cid"], notify=s["notify"])
+            # a request-level trigger other than FINAL makes this a partial-record closure
+            req = new_req(s["supi"], [g], cid=s["cid"], notify=s["notify"], triggers=rng.choice([[], [0]]))
             o = send({"kind": "update", "ref": s["ref"], "req": req})
             record_grants(s, o)
             continue
@@ -286,7 +407,7 @@ def gen_history(rng, sim, hid, kind, nops):
             compliant = rng.random() < (0.95 if kind == "single" else 0.85)
             us = [usage_for(s, rg, compliant, rng) for rg in rng.sample(rgs, rng.choice([1, len(rgs)]))]
             trig = rng.choice([[], [], [], [0], [1], [0, 0]])
-            req = new_req(s["supi"], us, triggers=trig, cid=s["cid"], notify=s["notify"])
+            req = new_req(s["supi"], us, triggers=trig, cid=s["cid"], notify=(s["notify"] if rng.random() < 0.8 else -1))
             o = send({"kind": "update", "ref": s["ref"], "req": req})
             record_grants(s, o)
         elif r < 0.80:
@@ -342,7 +463,7 @@ HEADER = ("From Coq Require Import List ZArith.\nFrom Verif Require Import Charg
 
 def history_to_coq(h):
     dbs = cl("mkDoc %d %d (%d) %s" % (a[0], a[1], a[2], zl(a[3])) for a in h.accounts)
-    steps = cl("(%s, %s)" % (coq_op(op), ob) for op, ob in zip(h.ops, h.obs))
+    steps = cl("(%s, %s)" % (coq_op(op), ob) for op, ob in zip(h.ops, obs_strings(h.obs)))
     return "mkHcase %d %s %d %s" % (h.hid, dbs, h.lrsn0, steps)
 
 
@@ -398,13 +519,15 @@ def monitor(h):
     last_grant = {}      # (ref, rg) -> last granted volume
     compliant = True
     prev = None
+    pre_burst = None
+    registered = {}      # supi -> k of the notification URI $NOTIFY/cb<k> registered by the subscriber's latest create (-1: none)
     for i, (op, o) in enumerate(zip(h.ops, h.raw)):
         kind = op["kind"]
         status = o["status"]
         if o.get("hung") or status >= 500:
             out.append(("C11", "C11/5xx-or-hung", i, "%s answered %s hung=%s" % (kind, status, o.get("hung"))))
         req = op.get("req")
-        supi_s = "imsi-%d" % (req["supi"] if req else op["supi"])
+        supi_s = "imsi-%d" % (req["supi"] if req else op.get("supi", 0))
         fullref = None
         if kind in ("update", "release"):
             fullref = op.get("fullref") or (supi_s + op["ref"])
@@ -417,6 +540,7 @@ def monitor(h):
                 if status != 201 or not tail.startswith(supi_s) or body.get("invocationSequenceNumber") != req["seq"]:
                     out.append(("C12", "C12/create-contract", i, "create answered %s location=%r body=%r" % (status, loc, body)))
                 else:
+                    registered[req["supi"]] = req["notify"]
                     sessions[tail] = {"supi": req["supi"], "cid": req["cid"], "consumer": req["consumer"], "notify": req["notify"],
                                       "usages": [], "live": True, "released": False, "partial": False}
                     for g in req["usages"]:
@@ -428,7 +552,7 @@ def monitor(h):
                                     charged[(req["supi"], g["rg"])] += cost[(req["supi"], g["rg"])] * k["total"]
                     # C10: the reference is new among live sessions
                     st = ue_state(o, req["supi"])
-                    if prev is not None:
+                    if prev is not None and not o.get("in_burst"):
                         pst = ue_state(prev, req["supi"])
                         if pst and tail in pst["cdrIndex"]:
                             out.append(("C10", "C10/reference-reused", i, "create returned live reference %s" % tail))
@@ -474,9 +598,9 @@ def monitor(h):
             if st is not None:
                 notes = o.get("notifications") or []
                 rgs = [d.get("ratingGroup") for n in notes for d in (n.get("body") or {}).get("reauthorizationDetails") or []]
-                want_path = st.get("notifyUri", "").rsplit("/", 1)[-1]
+                k = registered.get(op["supi"], -1)
                 paths = [n.get("path", "").rsplit("/", 1)[-1] for n in notes]
-                if status != 204 or rgs != [op["rg"]] or paths != [want_path]:
+                if status != 204 or (k >= 0 and (rgs != [op["rg"]] or paths != ["cb%d" % k])) or (k < 0 and notes):
                     out.append(("C12", "C12/recharge-contract", i, "recharge answered %s notifications=%r" % (status, notes)))
         elif kind == "credit":
             if (op["supi"], op["rg"]) in credited:
@@ -519,6 +643,12 @@ def monitor(h):
                     elif not fui:
                         key = "C06/no-final-unit-indication-in-debit-mode" if mode_before == 2 else "C06/final-unit-indication-missing"
                         out.append(("C06", key, i, "rg %d: money %d < requested %d x %d but no final-unit indication (mode %d)" % (rg, money, g["req"], c, mode_before)))
+        # ---- C10: the creates of a concurrent burst got pairwise different references, none of them live before
+        if "burst_refs" in o:
+            br = o["burst_refs"]
+            before = [k for st in ((pre_burst or {}).get("ues") or {}).values() for k in st["cdrIndex"]]
+            if len(br) != len(set(br)) or set(br) & set(before):
+                out.append(("C10", "C10/concurrent-creates-share-reference", i, "concurrent creates returned %r (live before: %r)" % (br, before)))
         # ---- C10: live references are pairwise distinct (they are map keys per subscriber; compare across subscribers)
         keys = [k for st in (o.get("ues") or {}).values() for k in st["cdrIndex"]]
         if len(keys) != len(set(keys)):
@@ -540,6 +670,8 @@ def monitor(h):
                 out.append(("C02", "C02/cause", i, "released session %s closed with cause %d" % (ref, recs[-1]["cause"])))
             if recs and s["partial"] and not s["released"] and recs[-1]["cause"] != 1:
                 out.append(("C02", "C02/cause", i, "partial record of %s closed with cause %d" % (ref, recs[-1]["cause"])))
+        if not o.get("in_burst"):
+            pre_burst = o
         prev = o
     return out
 
@@ -551,45 +683,74 @@ SPEC = {
     "C01": ("Charging/PropsC01.v", {2, 3, 4}, [("single", 14)] * 10 + [("multi", 16)] * 8 + [("createusage", 5)] * 2),
     "C06": ("Charging/PropsC06.v", {2, 3, 4}, [("single", 16)] * 14 + [("multi", 14)] * 6),
     "C02": ("Charging/PropsC02.v", {5, 6, 8}, [("multi", 18)] * 12 + [("single", 10)] * 4 + [("split", 6)] * 2),
-    "C03": ("Charging/PropsC03.v", {5, 8}, [("multi", 14)] * 8 + [("split", 6)] * 3 + [("huge", 2)]),
-    "C10": ("Charging/PropsC10.v", {1, 6, 9}, [("multi", 18)] * 14 + [("names", 14)] * 4),
+    "C03": ("Charging/PropsC03.v", {5, 8}, [("multi", 14)] * 8 + [("split", 10)] * 4 + [("huge", 2)] + [("lenwalk", 1)]),
+    "C10": ("Charging/PropsC10.v", {1, 6, 9}, [("wrap32", 16)] + [("multi", 18)] * 10 + [("names", 14)] * 4 + [("burst", 4)] * 4 + [("wrap63", 8)]),
     "C12": ("Charging/PropsC12.v", {1, 3, 4, 5, 6, 7}, [("multi", 18)] * 14 + [("single", 12)] * 4),
-    "C11": ("Charging/PropsC11.v", {1}, [("multi", 14)] * 8 + [("single", 10)] * 4),
+    "C11": ("Charging/PropsC11.v", {1}, [("multi", 14)] * 8 + [("single", 10)] * 4 + [("split", 6)] * 2),
 }
 KNOWN = {"C01/usage-in-create-not-rated", "C06/no-final-unit-indication-in-debit-mode",
          "C06/shared-reservation-across-sessions", "C03/record-exceeds-65535"}
 
 
-def file_cases(hs):
+def file_cases(hs, wanted=()):
+    """files to read back with the Coq monitor: up to 8 small ones per history spread over its steps, the steps
+    named in `wanted` (where the correspondence broke), and a few large ones (cost grows with the size)"""
     out = []
     for h in hs:
+        mine = []
         for k, o in enumerate(h.raw):
             for supi_s, hx in (o.get("cdrfiles") or {}).items():
-                over = any(r["berLen"] > 65535 for st in (o.get("ues") or {}).values() for r in st["records"])
-                out.append((h.hid, k, bytes.fromhex(hx), over))
-    # evaluating the reader in Coq costs time proportional to the file size: all small files, a few large ones
-    small = [f for f in out if len(f[2]) <= 6000]
-    large = sorted([f for f in out if len(f[2]) > 6000], key=lambda f: len(f[2]))
-    pick = large[:2] + large[-2:] + [f for f in large if f[3]][:2]
-    seen, res = set(), []
-    for f in small[:80] + pick:
-        if (f[0], f[1]) not in seen:
-            seen.add((f[0], f[1]))
+                over = any(r["berLen"] > 65535 for r in ((o.get("ues") or {}).get(supi_s) or {"records": []})["records"])
+                mine.append((h.hid, k, bytes.fromhex(hx), over))
+        out.append(mine)
+    res, seen = [], set()
+
+    def add(f):
+        if (f[0], f[1], len(f[2])) not in seen:
+            seen.add((f[0], f[1], len(f[2])))
             res.append(f)
+    large = []
+    for mine in out:
+        small = [f for f in mine if len(f[2]) <= 6000]
+        large += [f for f in mine if len(f[2]) > 6000]
+        n = 60 if (mine and any(h.hid == mine[0][0] and h.kind == "lenwalk" for h in hs)) else 8
+        stride = max(1, len(small) // n)
+        for f in small[::stride][:n] + small[-1:]:
+            add(f)
+        for f in mine:
+            if (f[0], f[1]) in wanted and len(f[2]) <= 70000:
+                add(f)
+    large.sort(key=lambda f: len(f[2]))
+    for f in large[:2] + large[-1:]:
+        add(f)
+    for mine in out:        # the first file of each history that holds a record above the limit
+        for f in mine:
+            if f[3] and len(f[2]) <= 140000:
+                add(f)
+                break
     return res
 
 
 def check_files(ctx, fcs):
-    lines = []
-    for (hid, k, bs, over) in fcs:
-        lines.append("(%d, %d, %s)" % (hid, k, compress_bytes(bs)))
+    shards, cur, size = [], [], 0
+    for (hid, k, bs, over) in sorted(fcs, key=lambda f: -len(f[2])):
+        line = "(%d, %d, %s)" % (hid, k, compress_bytes(bs))
+        if len(bs) > 6000:
+            shards.append([line])          # one large file per coqc process
+            continue
+        cur.append(line)
+        size += len(bs)
+        if size > 25000:
+            shards.append(cur)
+            cur, size = [], 0
+    if cur:
+        shards.append(cur)
     files = []
-    per = 12
-    for sidx in range(0, len(lines), per):
-        fn = "FileChk%d.v" % (sidx // per)
+    for n, lines in enumerate(shards):
+        fn = "FileChk%d.v" % n
         with open(os.path.join(ctx.workdir, fn), "w") as f:
             f.write("From Coq Require Import List ZArith.\nFrom Verif Require Import Common.Bytes Charging.FileCheck.\nImport ListNotations.\nOpen Scope Z_scope.\n"
-                    "Definition cases : list (Z * Z * list Z) := [\n" + ";\n".join(lines[sidx:sidx + per]) +
+                    "Definition cases : list (Z * Z * list Z) := [\n" + ";\n".join(lines) +
                     "\n].\nDefinition M := Eval vm_compute in run_files cases.\nPrint M.\n")
         files.append(fn)
     if not files:
@@ -611,8 +772,13 @@ def run(ctx, replay=None):
     cov = proof_stage(ctx, props, ["Charging/CorrChf.v", "Charging/FileCheck.v"])
     if ctx.tier != "quick":
         plan = plan * 12
+    import time as _t
+    t0 = _t.time()
     hs = run_histories(ctx, plan, ctx.seed * 1000003 + int(pid[1:]))
+    t1 = _t.time()
     okc, mism, logs = evaluate(ctx, hs, shards=16 if ctx.tier == "quick" else 64)
+    t2 = _t.time()
+    sys.stderr.write("timing: histories %.1fs, model evaluation %.1fs\n" % (t1 - t0, t2 - t1))
     if not okc and ctx.proof_broken is None:
         raise RuntimeError("case evaluation failed:\n" + "\n".join(logs)[:3000])
     byh = {h.hid: h for h in hs}
@@ -649,16 +815,33 @@ def run(ctx, replay=None):
             byh.setdefault(0, None)
         lattice_bad = lat["bad"]
     if pid == "C03":
-        fcs = file_cases(hs)
+        fcs = file_cases(hs, wanted={(t[0], t[1]) for t in corr})
         okf, fm, flogs = check_files(ctx, fcs)
         if not okf:
             raise RuntimeError("file check failed:\n" + "\n".join(flogs)[:3000])
         over = {(hid, k) for (hid, k, bs, ov) in fcs if ov}
         fc = {1: "the independent TS 32.297 reader rejects the file", 2: "header-length / file-length fields differ from the real sizes",
               3: "CDR count differs from the number of records", 4: "a record length field differs from its payload size",
-              5: "a payload is not one complete BER element"}
+              5: "a payload is not one complete BER element",
+              6: "a payload is one BER element but does not decode as a CHFRecord (schema regenerated from /repo)"}
+        def oversize_key(hid, k):
+            """the recorded finding is a request that cannot fit in any record (its own usage exceeds the limit) or usage
+            added by create/release, which have no size guard; an update whose usage would have fitted in a fresh
+            record is a different failure"""
+            h = byh[hid]
+            op = h.ops[k]
+            if op["kind"] != "update" or k == 0:
+                return "C03/record-exceeds-65535"
+            supi_s = "imsi-%d" % op["req"]["supi"]
+            ref = op.get("fullref") or (supi_s + op["ref"])
+            now = [r["berLen"] for r in ((h.raw[k].get("ues") or {}).get(supi_s) or {"records": []})["records"] if r["sessionId"] == ref]
+            was = [r["berLen"] for r in ((h.raw[k - 1].get("ues") or {}).get(supi_s) or {"records": []})["records"] if r["sessionId"] == ref]
+            if not now or not was:
+                return "C03/record-exceeds-65535"
+            added = sum(now) - sum(was)
+            return "C03/record-exceeds-65535" if added + 400 > 65535 else "C03/update-overflows-record-without-split"
         for (hid, k, c) in fm:
-            key = "C03/record-exceeds-65535" if (hid, k) in over else "C03/file-code%d" % c
+            key = oversize_key(hid, k) if (hid, k) in over else "C03/file-code%d" % c
             mons.append((hid, k, key, "CDR file written at this step: " + fc.get(c, str(c))))
         fstats = {"files_checked": len(fcs), "files_with_record_over_65535": len(over), "file_violations": len(fm)}
 
